@@ -178,6 +178,56 @@ def foreach_wait(ss, inside=False):
     return False
 
 
+def _open(s):
+    m = s.get('m') if s['t'] in ('match', 'append') else None
+    return bool(m and m.get('k') == 're' and genprog.regex_open_ended(m['r']))
+
+
+def _starts_with_action(ss, after):
+    """can the first thing performed when control reaches statement list ss be an action?  `after`: the same question for what follows
+    the list.  Conservative (over-approximates): an `if` counts as an action."""
+    if not ss:
+        return after
+    s = ss[0]
+    if _actionish(s):
+        return True
+    t = s['t']
+    if t in ('match', 'append', 'wait', 'case'):
+        return False
+    rest = _starts_with_action(ss[1:], after)
+    if t == 'opt':
+        return _starts_with_action(s['b'], rest) or rest
+    if t in ('try', 'foreach'):
+        return _starts_with_action(s['b'], rest)
+    if t == 'loop':
+        return _starts_with_action(s['b'], False)
+    return True
+
+
+def op8_shape(ss, after=False):
+    """open point OP8 (DESIGN.md section 5): an action is the next thing performed after an open-ended regex has ended by lookahead - through
+    any nesting (the regex may be the last statement of a block and the action may follow the block).  nmfu chains such actions lazily
+    onto the transitions of what follows only; the oracle does not model that and the generators keep away from it."""
+    for i, s in enumerate(ss):
+        nxt = _starts_with_action(ss[i + 1:], after)
+        if _open(s) and nxt:
+            return True
+        t = s['t']
+        if t in ('opt', 'try', 'foreach'):
+            if op8_shape(s['b'], nxt) or (t == 'try' and op8_shape(s['h'], nxt)):
+                return True
+        elif t == 'loop':
+            if op8_shape(s['b'], _starts_with_action(s['b'], False) or nxt):      # back edge, or a break in front of the regex's end
+                return True
+        elif t == 'case':
+            if any(op8_shape(cl['b'], nxt) for cl in s['cl']):
+                return True
+        elif t == 'if':
+            if any(op8_shape(br['b'], nxt) for br in s['br']) or (s.get('els') and op8_shape(s['els'], nxt)):
+                return True
+    return False
+
+
 LEVELS = ('-O0', '-O1', '-O2', '-O3')
 
 
@@ -202,6 +252,7 @@ def programs(maxsize, stride=1, offset=0, minsize=1):
             if idx % 3 == 0 and not foreach_wait(b):
                 args.append('-feof-support')
             ast['known_class'] = 'greedy-action-only-early' if greedy_early(b) else None
+            ast['op8'] = op8_shape(b)
             yield idx, 'enum%d:%d' % (maxsize, idx), ast, genprog.spell_program(ast), args
 
 
